@@ -254,6 +254,11 @@ func (s *Service) refreshAttesterDutiesForEpoch(ctx context.Context, epoch phase
 	for slot := s.chainTimeService.FirstSlotOfEpoch(epoch); slot < s.chainTimeService.FirstSlotOfEpoch(epoch+1); slot++ {
 		if err := s.scheduler.CancelJob(ctx, fmt.Sprintf("Attestations for slot %d", slot)); err == nil {
 			cancelledJobs[slot] = true
+			// The job will no longer run, so the slot has no pending attestations
+			// (the note is made again if the slot is rescheduled below).
+			s.pendingAttestationsMutex.Lock()
+			delete(s.pendingAttestations, slot)
+			s.pendingAttestationsMutex.Unlock()
 		}
 	}
 
